@@ -26,6 +26,7 @@ fn any_dyadic() -> Dyadic {
     d
 }
 fn sgn(d: &Dyadic) -> bool { d.flags & SIGN != 0 }
+fn eabs(d: &Dyadic) -> i64 { (d.exp as i64).abs() }
 fn apx(d: &Dyadic) -> bool { d.flags & APPROX != 0 }
 
 #[derive(Clone, Copy, PartialEq, Eq)]
@@ -86,6 +87,7 @@ fn new_exact_wf() {
     assert!(wf(&d), "new: result satisfies the representation invariant");
     assert!(!apx(&d), "new: result is not flagged approximate");
     assert!(mag_is(&d, w_shl(v.unsigned_abs(), 0), e, v < 0), "new: value is exactly val * 2^exp");
+    assert!(eabs(&d) <= (e as i64).abs() + 64 && (v != 0 || d.exp == 0), "new: |exp| grows by at most 64 (normalisation), zero has exponent 0");
     kani::cover!(v < 0 && d.val != 0);
     kani::cover!(v == 0);
 }
@@ -97,6 +99,7 @@ fn from_i64_exact() {
     let d: Dyadic = v.into();
     assert!(wf(&d) && !apx(&d), "From<i64>: wf and exact");
     assert!(mag_is(&d, w_shl(v.unsigned_abs(), 0), 0, v < 0), "From<i64>: value is exactly the integer");
+    assert!(eabs(&d) <= 64, "From<i64>: |exp| <= 64");
     kani::cover!(v == i64::MAX);
 }
 
@@ -157,6 +160,8 @@ fn neg_contract() {
 
 fn add_obligations(a: &Dyadic, b: &Dyadic, r: &Dyadic) {
     assert!(wf(r), "add: result satisfies the representation invariant");
+    let m = if eabs(a) > eabs(b) { eabs(a) } else { eabs(b) };
+    assert!(eabs(r) <= m + 64, "add: |exp| of the result is at most 64 above the larger operand exponent (exponent-range bookkeeping used by the Scalar4 unit)");
     assert!(!(apx(a) || apx(b)) || apx(r), "add: an approximate operand gives a flagged result");
     if !apx(r) {
         match exact_sum(a, b) {
@@ -240,6 +245,7 @@ fn mul_contract() {
     let b = any_dyadic();
     let r = a * b;
     assert!(wf(&r), "mul: result satisfies the representation invariant");
+    assert!(eabs(&r) <= eabs(&a) + eabs(&b) + 64, "mul: |exp| of the result is at most |ea| + |eb| + 64 (exponent-range bookkeeping used by the Scalar4 unit)");
     if !apx(&r) {
         let exact_zero_a = a.val == 0 && !apx(&a);
         let exact_zero_b = b.val == 0 && !apx(&b);
